@@ -12,9 +12,9 @@ pub fn scenario(tier: &str) -> IncScn {
         vec![FeeKind::NativeSame, FeeKind::NativeDiff, FeeKind::Cw20Same, FeeKind::Cw20Diff, FeeKind::NativeFeeCw20Reward]
     };
     for k in kinds {
-        roots.push(IncRoot { label: format!("{:?}/fresh", k), lp_native: true, fee_kind: k, prefix: 1 });
+        roots.push(IncRoot { label: format!("{:?}/fresh", k), lp_native: true, fee_kind: k, prefix: 1, standing_allowance: false });
         if tier != "quick" || matches!(k, FeeKind::NativeDiff | FeeKind::Cw20Same) {
-            roots.push(IncRoot { label: format!("{:?}/flow+epoch", k), lp_native: true, fee_kind: k, prefix: 2 });
+            roots.push(IncRoot { label: format!("{:?}/flow+epoch", k), lp_native: true, fee_kind: k, prefix: 2, standing_allowance: false });
         }
     }
     IncScn { property: "C12".into(), roots, users: default_users(), reduced: tier == "quick" }
